@@ -4,18 +4,21 @@ import (
 	"bytes"
 	"errors"
 	"fmt"
+	"net"
 	"reflect"
 	"runtime"
 	"sort"
 	"strconv"
 	"strings"
 	"sync"
+	"sync/atomic"
 	"time"
 
 	"github.com/gorilla/websocket"
 	"go.dedis.ch/onet/v3"
 	"go.dedis.ch/onet/v3/log"
 	"go.dedis.ch/protobuf"
+	"onetverif/harness/fix"
 	"onetverif/harness/h"
 )
 
@@ -46,6 +49,16 @@ import (
 //   c15 gc                    garbage collection in the server process; from then on the service tries to
 //                             allocate a new channel at the address of a closed and dropped one
 //   c15 alive                 a fresh connection streams one value and ends normally
+//   c15 cmute <c>             from now on the client only listens: it neither answers a close frame
+//                             nor closes its side of the connection
+//   c15 wclosed <c>           wait until the server has closed the connection (end of file on the socket)
+//   c15 cping <c>             websocket ping through StreamingConn.Ping (clients n...)
+//   c15 ping <v>              another client of the same server: a plain request (C15Ping) over a
+//                             single-use onet.Client, answered with v+1
+//
+// A connection named n... is driven through onet's own client (Client.Stream on a kept
+// connection for every message, StreamingConn.ReadMessage, Client.Close to leave); all others are
+// raw gorilla connections. `open <c> unregistered` connects to a path no handler is registered for.
 //
 // Every wait is bounded (c15wait); "timeout" is an observation.
 
@@ -67,6 +80,13 @@ type C15Val struct {
 	K    int64
 	V    int64
 }
+
+// C15Ping is a plain (non-streaming) request of the same service: other clients
+// of the server while streams are going on.
+type C15Ping struct{ V int64 }
+type C15Pong struct{ V int64 }
+
+func (s *c15Service) ping(m *C15Ping) (*C15Pong, error) { return &C15Pong{V: m.V + 1}, nil }
 
 type c15stream struct {
 	ch   chan *C15Val
@@ -143,7 +163,10 @@ func c15Register() {
 	c15RegisterOnce.Do(func() {
 		_, err := onet.RegisterNewService(c15ServiceName, func(c *onet.Context) (onet.Service, error) {
 			s := &c15Service{ServiceProcessor: onet.NewServiceProcessor(c)}
-			if err := s.RegisterStreamingHandler(s.stream); err != nil {
+			if err := s.RegisterStreamingHandlers(s.stream); err != nil {
+				return nil, err
+			}
+			if err := s.RegisterHandler(s.ping); err != nil {
 				return nil, err
 			}
 			return s, nil
@@ -206,8 +229,12 @@ func c15hook(name string, key interface{}) {
 // ---------------------------------------------------------------------------
 
 type c15client struct {
-	conn   *websocket.Conn
+	conn   *websocket.Conn // raw connection
+	oc     *onet.Client    // clients n...: onet's own client
+	sc     onet.StreamingConn
 	frames chan string
+	muted  int32
+	done   chan struct{} // closed when the routine reading frames has ended
 }
 
 type c15env struct {
@@ -249,23 +276,94 @@ func c15msg(conn, m string) ([]byte, bool) {
 	return nil, false
 }
 
+func c15req(conn, m string) (*C15Req, bool) {
+	switch {
+	case m == "fresh":
+		return &C15Req{Conn: string(c15tag(conn)), Reuse: -1}, true
+	case m == "failing":
+		return &C15Req{Conn: string(c15tag(conn)), Reuse: -1, Fail: true}, true
+	case strings.HasPrefix(m, "reuse"):
+		j, err := strconv.Atoi(m[5:])
+		if err != nil {
+			return nil, false
+		}
+		return &C15Req{Conn: string(c15tag(conn)), Reuse: int64(j)}, true
+	}
+	return nil, false
+}
+
+// openOnet drives the stream through onet's client: Client.Stream, then
+// StreamingConn.ReadMessage in a routine of its own.
+func (e *c15env) openOnet(name, m string) string {
+	req, ok := c15req(name, m)
+	if !ok {
+		return "bad-op"
+	}
+	oc := onet.NewClientKeep(fix.Suite, c15ServiceName)
+	sc, err := oc.Stream(e.srv.ServerIdentity, req)
+	if err != nil {
+		return "dial-error"
+	}
+	cl := &c15client{oc: oc, sc: sc, frames: make(chan string, 4096), done: make(chan struct{})}
+	e.cl[name] = cl
+	go func() {
+		defer close(cl.done)
+		for {
+			var v C15Val
+			err := sc.ReadMessageWithOpts(&v, onet.StreamingReadOpts{Deadline: time.Now().Add(2 * time.Minute)})
+			if err != nil {
+				var ce *websocket.CloseError
+				switch {
+				case errors.As(err, &ce):
+					cl.frames <- fmt.Sprintf("close %d", ce.Code)
+				case strings.Contains(err.Error(), "decoding:"):
+					cl.frames <- "undecodable"
+					continue
+				default:
+					cl.frames <- "eof"
+				}
+				close(cl.frames)
+				return
+			}
+			cl.frames <- fmt.Sprintf("data %d %d", v.K, v.V)
+		}
+	}()
+	return "ok"
+}
+
 func (e *c15env) open(name, m string) string {
+	if strings.HasPrefix(name, "n") {
+		return e.openOnet(name, m)
+	}
+	path := "C15Req"
+	if m == "unregistered" {
+		path, m = "C15Nope", "fresh"
+	}
 	buf, ok := c15msg(name, m)
 	if !ok {
 		return "bad-op"
 	}
-	url := strings.Replace(e.base, "http://", "ws://", 1) + "/" + c15ServiceName + "/C15Req"
+	url := strings.Replace(e.base, "http://", "ws://", 1) + "/" + c15ServiceName + "/" + path
 	d := &websocket.Dialer{HandshakeTimeout: 10 * time.Second}
 	conn, _, err := d.Dial(url, nil)
 	if err != nil {
 		return "dial-error"
 	}
-	cl := &c15client{conn: conn, frames: make(chan string, 4096)}
+	cl := &c15client{conn: conn, frames: make(chan string, 4096), done: make(chan struct{})}
 	e.cl[name] = cl
+	// gorilla's default: answer a close frame with a close frame; a muted client stays silent
+	conn.SetCloseHandler(func(code int, text string) error {
+		if atomic.LoadInt32(&cl.muted) != 0 {
+			return nil
+		}
+		conn.WriteControl(websocket.CloseMessage, websocket.FormatCloseMessage(code, ""), time.Now().Add(time.Second))
+		return nil
+	})
 	if err := conn.WriteMessage(websocket.BinaryMessage, buf); err != nil {
 		return "write-error"
 	}
 	go func() {
+		defer close(cl.done)
 		for {
 			_, b, err := conn.ReadMessage()
 			if err != nil {
@@ -307,6 +405,17 @@ func (e *c15env) do(tk []string) string {
 		return e.open(tk[2], tk[3])
 	case len(tk) == 4 && tk[1] == "csend":
 		cl, ok := e.cl[tk[2]]
+		if ok && cl.oc != nil {
+			// a further request on the kept connection of onet's client
+			req, ok2 := c15req(tk[2], tk[3])
+			if !ok2 {
+				return "bad-op"
+			}
+			if _, err := cl.oc.Stream(e.srv.ServerIdentity, req); err != nil {
+				return "timeout"
+			}
+			return "ok"
+		}
 		buf, ok2 := c15msg(tk[2], tk[3])
 		if !ok || !ok2 {
 			return "bad-op"
@@ -417,11 +526,68 @@ func (e *c15env) do(tk []string) string {
 		if !ok {
 			return "bad-op"
 		}
+		if cl.oc != nil {
+			cl.oc.Close() // close frame, then the connection is closed
+			return "ok"
+		}
 		if tk[3] == "close" {
 			cl.conn.WriteMessage(websocket.CloseMessage, websocket.FormatCloseMessage(websocket.CloseNormalClosure, "client closed"))
 		}
 		cl.conn.Close()
 		return "ok"
+	case len(tk) == 3 && tk[1] == "cmute":
+		cl, ok := e.cl[tk[2]]
+		if !ok || cl.conn == nil {
+			return "bad-op"
+		}
+		atomic.StoreInt32(&cl.muted, 1)
+		return "ok"
+	case len(tk) == 3 && tk[1] == "wclosed":
+		cl, ok := e.cl[tk[2]]
+		if !ok || cl.conn == nil {
+			return "bad-op"
+		}
+		// the routine reading frames has seen the close frame (or the end of the
+		// connection); then the socket itself must reach its end
+		select {
+		case <-cl.done:
+		case <-time.After(c15wait):
+			return "timeout"
+		}
+		uc := cl.conn.UnderlyingConn()
+		uc.SetReadDeadline(time.Now().Add(c15wait))
+		var one [1]byte
+		for {
+			_, err := uc.Read(one[:])
+			if err == nil {
+				continue
+			}
+			if ne, ok := err.(net.Error); ok && ne.Timeout() {
+				return "timeout"
+			}
+			return "ok"
+		}
+	case len(tk) == 3 && tk[1] == "cping":
+		cl, ok := e.cl[tk[2]]
+		if !ok || cl.oc == nil {
+			return "bad-op"
+		}
+		if err := cl.sc.Ping([]byte("c15"), time.Now().Add(c15wait)); err != nil {
+			return "timeout"
+		}
+		return "ok"
+	case len(tk) == 3 && tk[1] == "ping":
+		v, err := strconv.ParseInt(tk[2], 10, 64)
+		if err != nil {
+			return "bad-op"
+		}
+		oc := onet.NewClient(fix.Suite, c15ServiceName)
+		oc.ReadTimeout = c15wait
+		var pong C15Pong
+		if err := oc.SendProtobuf(e.srv.ServerIdentity, &C15Ping{V: v}, &pong); err != nil {
+			return "err"
+		}
+		return fmt.Sprintf("pong %d", pong.V)
 	case len(tk) == 4 && tk[1] == "wstop":
 		k, err := strconv.Atoi(tk[3])
 		if err != nil {
@@ -593,6 +759,13 @@ func c15oracle(cs *h.Case) {
 			}
 			continue
 		}
+		if tk[1] == "ping" && len(tk) == 3 {
+			v, _ := strconv.ParseInt(tk[2], 10, 64)
+			if obs != fmt.Sprintf("pong %d", v+1) {
+				cs.Fail("c15:other-client-affected", fmt.Sprintf("op %d %q: a plain request of another client of the same server was answered %q", i, op, obs))
+			}
+			continue
+		}
 		if len(tk) < 3 {
 			continue
 		}
@@ -628,6 +801,10 @@ func c15oracle(cs *h.Case) {
 		case "wexit":
 			if obs != "ok" {
 				cs.Fail("c15:goroutine-stuck", fmt.Sprintf("op %d %q: a forwarding routine never ended although its service closed the channel (%s)", i, op, obs))
+			}
+		case "wclosed":
+			if obs != "ok" {
+				cs.Fail("c15:connection-left-open", fmt.Sprintf("op %d %q: the stream is over but the server does not close the connection (%s)", i, op, obs))
 			}
 		case "wheld":
 			if obs != "ok" {
@@ -875,6 +1052,69 @@ func (g *c15g) badFirst(c string, what string) []string {
 	return []string{"c15 open " + c + " " + what, "c15 cread " + c}
 }
 
+// the client only listens: it neither answers the server's close frame nor
+// closes its side. After the service ended the stream (or a bad message ended
+// it) the server must not wait for the client: stop channels closed, connection
+// closed. readClose: whether the client takes the close frame off the socket.
+func (g *c15g) silentClient(c string, n, burst int, second bool, bad string, readClose bool) []string {
+	ops := []string{"c15 open " + c + " fresh", "c15 wstart " + c + " 0"}
+	if second {
+		ops = append(ops, "c15 csend "+c+" fresh", "c15 wstart "+c+" 1")
+		ops = append(ops, g.values(c, 1, 1, 1)...)
+	}
+	ops = append(ops, "c15 cmute "+c)
+	ops = append(ops, g.values(c, 0, n, burst)...)
+	if bad != "" {
+		ops = append(ops, "c15 csend "+c+" "+bad, "c15 wstop "+c+" 0")
+	}
+	ops = append(ops, "c15 svcclose "+c+" 0")
+	if second {
+		if bad == "" {
+			// (after a bad message the forwarders give up at their next value: nothing more is emitted)
+			ops = append(ops, g.values(c, 1, g.c.Rng.Intn(3), 1)...)
+		}
+		ops = append(ops, "c15 svcclose "+c+" 1")
+	}
+	if readClose {
+		ops = append(ops, "c15 cread "+c)
+	}
+	ops = append(ops, "c15 wstop "+c+" 0")
+	if second {
+		ops = append(ops, "c15 wstop "+c+" 1")
+	}
+	return append(ops, "c15 wclosed "+c)
+}
+
+// the stream driven through onet's own client (Client.Stream on a kept
+// connection, StreamingConn.ReadMessage / Ping, Client.Close)
+func (g *c15g) onetClient(c string, n, burst int, again bool, leave bool) []string {
+	ops := []string{"c15 open " + c + " fresh", "c15 wstart " + c + " 0", "c15 cping " + c}
+	if again {
+		// a second request over the same kept connection: the same channel again, or a new one
+		if g.c.Rng.Intn(2) == 0 {
+			ops = append(ops, "c15 csend "+c+" reuse0", "c15 wstart "+c+" 1")
+		} else {
+			ops = append(ops, "c15 csend "+c+" fresh", "c15 wstart "+c+" 1")
+			ops = append(ops, g.values(c, 1, 1+g.c.Rng.Intn(2), 1)...)
+			ops = append(ops, "c15 svcclose "+c+" 1")
+		}
+	}
+	ops = append(ops, g.values(c, 0, n, burst)...)
+	if leave {
+		return append(ops, "c15 cping "+c, "c15 cleave "+c+" close", "c15 wstop "+c+" 0", "c15 svcclose "+c+" 0")
+	}
+	return append(ops, "c15 svcclose "+c+" 0", "c15 cread "+c, "c15 wstop "+c+" 0")
+}
+
+// withPings inserts plain requests of other clients of the same server at random places.
+func (g *c15g) withPings(ops []string, n int) []string {
+	for i := 0; i < n; i++ {
+		at := 1 + g.c.Rng.Intn(len(ops))
+		ops = append(ops[:at], append([]string{fmt.Sprintf("c15 ping %d", g.v())}, ops[at:]...)...)
+	}
+	return ops
+}
+
 // interleave merges op lists keeping each list's order.
 func (g *c15g) interleave(lists [][]string) []string {
 	r := g.c.Rng
@@ -942,6 +1182,13 @@ func c15genCases(c *h.Ctx, yield func(*h.Case)) {
 	emit("corpus:revisit", g.revisit("s0", 3, 4))
 	emit("corpus:inputs-overflow", g.inputsOverflow("s0", 1, 14, "close"))
 	emit("corpus:flood-after-leave", g.floodAfterLeave("s0", 1, 130, "drop"))
+	// a client that never answers the close frame (seed C15r4-B): the server tears the connection down on its own
+	emit("corpus:silent-client", g.silentClient("s0", 2, 1, false, "", true))
+	emit("corpus:silent-client", g.silentClient("s0", 1, 1, true, "", false))
+	emit("corpus:silent-client", g.silentClient("s0", 1, 1, false, "garbage", true))
+	emit("corpus:onet-client", g.withPings(g.onetClient("n0", 3, 2, true, false), 2))
+	emit("corpus:onet-client", g.onetClient("n0", 2, 1, false, true))
+	emit("corpus:unregistered-path", append(g.badFirst("s0", "unregistered"), "c15 ping 5"))
 
 	// every stream length, every leave point (quick: lengths up to 8, thorough: up to 20)
 	maxN := c.Pick(8, 20)
@@ -969,7 +1216,12 @@ func c15genCases(c *h.Ctx, yield func(*h.Case)) {
 			emit("inputs-overflow", g.inputsOverflow("s0", r.Intn(3), 11+r.Intn(12), how()))
 			emit("flood-after-leave", g.floodAfterLeave("s0", r.Intn(3), 105+r.Intn(60), how()))
 		}
-		emit("bad-first", g.badFirst("s0", []string{"garbage", "failing"}[r.Intn(2)]))
+		emit("bad-first", g.badFirst("s0", []string{"garbage", "failing", "unregistered"}[r.Intn(3)]))
+		if it%3 == 0 {
+			emit("silent-client", g.withPings(g.silentClient("s0", r.Intn(5), 1+r.Intn(3), r.Intn(3) == 0,
+				[]string{"", "", "garbage", "failing"}[r.Intn(4)], r.Intn(3) != 0), r.Intn(2)))
+			emit("onet-client", g.withPings(g.onetClient("n0", r.Intn(6), 1+r.Intn(3), r.Intn(2) == 0, r.Intn(3) == 0), r.Intn(3)))
+		}
 		// several streams in parallel on one server
 		var lists [][]string
 		for i, m := 0, 2+r.Intn(3); i < m; i++ {
@@ -989,7 +1241,13 @@ func c15genCases(c *h.Ctx, yield func(*h.Case)) {
 				lists = append(lists, g.badFirst(n, []string{"garbage", "failing"}[r.Intn(2)]))
 			}
 		}
-		emit("parallel", g.interleave(lists))
+		switch r.Intn(4) {
+		case 0:
+			lists = append(lists, g.onetClient("n9", r.Intn(5), 1+r.Intn(2), r.Intn(2) == 0, r.Intn(3) == 0))
+		case 1:
+			lists = append(lists, g.silentClient("s9", r.Intn(4), 1, false, "", true))
+		}
+		emit("parallel", g.withPings(g.interleave(lists), r.Intn(3)))
 	}
 }
 
